@@ -119,11 +119,12 @@ def execute(mod, cfg, desc, ops=None, rng=None, seed=None) -> RunResult:
                     res.steps += 1
             else:
                 for op in ops:
+                    res.ops.append(op)
                     try:
                         ev = world.apply(op)
                     except Unresolvable:
+                        res.ops.pop()
                         continue
-                    res.ops.append(op)
                     res.events.append(ev)
                     res.steps += 1
             world.finish()
